@@ -17,6 +17,10 @@ type Flat struct {
 	C float64 // key "c"
 	D bool    // key "d"
 	E uint16  // key "e"
+	// untagged names with initialisms: the key is data.ToCamelCase of the name
+	URL     string // key "url"
+	IPAddr  int32  // key "ipAddr"
+	MaxTemp int8   // key "maxTemp"
 }
 
 // Kid is a child node type (decode only).
@@ -224,6 +228,8 @@ func GenFlat(t *rapid.T, label string) Flat {
 		return Flat{B: Str().Draw(t, label+"OnlyB")}
 	case 2:
 		return Flat{D: true}
+	case 3:
+		return Flat{URL: Str().Draw(t, label+"OnlyURL"), IPAddr: int32(rapid.IntRange(0, 1).Draw(t, label+"OnlyIP"))}
 	}
 	return Flat{
 		A: int(intIn(-maxSafe, maxSafe).Draw(t, label+"A")),
@@ -231,6 +237,10 @@ func GenFlat(t *rapid.T, label string) Flat {
 		C: Float64().Draw(t, label+"C"),
 		D: rapid.Bool().Draw(t, label+"D"),
 		E: uint16(intIn(0, math.MaxUint16).Draw(t, label+"E")),
+
+		URL:     Str().Draw(t, label+"URL"),
+		IPAddr:  int32(intIn(math.MinInt32, math.MaxInt32).Draw(t, label+"IPAddr")),
+		MaxTemp: int8(intIn(math.MinInt8, math.MaxInt8).Draw(t, label+"MaxTemp")),
 	}
 }
 
